@@ -83,12 +83,12 @@ def _range_convention(jc):
 
 def run(ck):
     ck.rule("R1", "host write entry: add_mem_write (same addr/size) and check_invalid_code_blocs on every success path", floor=5)
-    ck.rule("R2", "emulated write primitives record width/8 bytes; overlap of a write with a code range sets EXCEPT_CODE_AUTOMOD", floor=6)
-    ck.rule("R3", "each back end re-checks code ranges after a memory-accessing instruction and leaves the block on a VM flag", floor=6)
+    ck.rule("R2", "emulated write primitives record width/8 bytes; overlap of a write with a code range sets EXCEPT_CODE_AUTOMOD", floor=3)
+    ck.rule("R3", "each back end re-checks code ranges after a memory-accessing instruction and leaves the block on a VM flag", floor=3)
     ck.rule("R4", "a translated block is registered and its address range pushed to the VM", floor=4)
-    ck.rule("R5", "an EXCEPT_CODE_AUTOMOD handler drops the modified translations and clears the flag", floor=3)
+    ck.rule("R5", "an EXCEPT_CODE_AUTOMOD handler drops the modified translations and clears the flag", floor=1)
     ck.rule("R7", "the recorded write list is cleared only by code that has consumed it (get_memory_write) on every path to the reset", floor=1)
-    ck.rule("R6", "del_block_in_range removes translation and block entry of every overlapping block; ranges rebuilt", floor=6)
+    ck.rule("R6", "del_block_in_range removes translation and block entry of every overlapping block; ranges rebuilt", floor=3)
     # the re-check of R3 is emitted only for instructions whose attributes say they access memory: those attributes must
     # cover every block of the instruction (rules shared with C49-R4)
     from rules.c49 import _attr_rules
@@ -294,7 +294,9 @@ def run(ck):
     if chk:
         c0 = chk[0]
         dom = cfg.dominators()[c0.id]
-        guarded = any(cfg.nodes[d].kind == "test" and "mem_write" in norm(cfg.nodes[d].ast) for d in dom)
+        from sa.astutil import Resolver as _Rj
+        _rj = _Rj(fn)
+        guarded = any(cfg.nodes[d].kind == "test" and "mem_write" in _rj.expand(cfg.nodes[d].ast) for d in dom)
         # followed by a test of the VM exception leading to a return
         follow = False
         for nd in cfg.nodes:
